@@ -54,7 +54,7 @@ EXTRACT ("C15Plane", p_reflectPoint, "Plane3.reflectPoint", { INP (pl); IN (Vec3
 EXTRACT ("C15Plane", p_reflectVector, "Plane3.reflectVector", { INP (pl); IN (Vec3, v); c.out (pl.reflectVector (v)); })
 EXTRACT ("C15Plane", p_intersect, "Plane3.intersect", { INP (pl); INL (l); Vec3<T> pt (T (0)); bool r = pl.intersect (l, pt); c.outB (r); c.out (pt); })
 EXTRACT ("C15Plane", p_intersectT, "Plane3.intersectT", { INP (pl); INL (l); T t (0); bool r = pl.intersectT (l, t); c.outB (r); c.outS (t); })
-EXTRACT ("C15Plane", p_mulM44, "Plane3.mulM44", { INP (pl); IN (Matrix44, m); c.out (pl * m); })
+// operator* (Plane3, Matrix44): extracted by sym_c15b.cpp with Plane3::set(p1,p2,p3) opaque (module C15PlaneMul)
 EXTRACT ("C15Plane", p_neg, "Plane3.neg", { INP (pl); c.out (-pl); })
 
 //---------------------------------------------------------------- ImathSphere.h
